@@ -1,8 +1,1683 @@
-//! C20 — not built yet.
+//! C20 — homomorphic matrix products and convolutions equal the plaintext ones, all shapes.
+//!
+//! E1 sections (every case runs the real helpers end to end and compares the decrypted result
+//! with a u128 reference product / valid cross-correlation modulo t):
+//!  * `cheetah`   coefficient-packing `MatmulHelper`: all (m,r,n) of a box x objective x pack_lwe x
+//!                {matmul, matmul_reverse, sum of both} x transport x operand fills
+//!  * `bolt`      `MatmulBoltCp` / `MatmulBoltCcCr` / `MatmulBoltCcDc`: all (m,r,n) of a box (+ values that
+//!                force the m > N/2 splitting) x transport x operand fills
+//!  * `conv2d`    `Conv2dHelper`: all (batch, c_in, c_out, H, W, k_h, k_w) of a box x objective x
+//!                {conv2d, conv2d_reverse} x transport x operand fills
+//!  * `ckks`      CKKS variants of the Cheetah and convolution helpers on a sub-box, a-priori error bound
+//!  * `rnsp`      RNS-plaintext wrapper: values modulo the product of 2-3 plain moduli, every operation
+//!                against big-integer arithmetic
+//! `encode_outputs` / `decrypt_outputs` (resp. `decode_outputs`) inverse is checked once per case and the
+//! `encode_outputs` layout is also checked against the product layout (bias added with `add_plain_inplace`).
+
 use crate::engine::*;
+use crate::he::*;
+use crate::refmodel::bigu::*;
+use heathcliff::app::conv2d::Conv2dHelper;
+use heathcliff::app::matmul::bolt_cc_cr::MatmulBoltCcCr;
+use heathcliff::app::matmul::bolt_cc_dc::MatmulBoltCcDc;
+use heathcliff::app::matmul::bolt_cp::MatmulBoltCp;
+use heathcliff::app::matmul::cheetah::{MatmulHelper, MatmulHelperObjective};
+use heathcliff::app::matmul::{Cipher2d, Plain2d};
+use heathcliff::app::rns_plain::*;
+use heathcliff::{BatchEncoder, CKKSEncoder, Ciphertext, ExpandSeed, GaloisKeys, RelinKeys, SerializableWithHeContext};
+use serde::{Deserialize, Serialize};
+use std::cell::{Cell, RefCell};
+use std::collections::BTreeMap;
+use std::rc::Rc;
+use std::sync::{Arc, Mutex, OnceLock};
+use std::time::Duration;
 
-pub fn describe(_rep: &Report) {}
+pub fn describe(rep: &Report) {
+    rep.set_rule(
+        "case = (explicit parameter set, helper, shape, objective, pack_lwe, direction, transport); each case builds the helper for \
+         that shape and loops over the operand fills: every pair of unit operands (E_a, E_b) when the pair count is <= the stated cap \
+         (bilinearity => the whole value space up to overflow), one dense fill derived from the seed (with a dense bias added through \
+         encode_outputs + add_plain_inplace), and the all-(t-1) fill; steps = pipelines compared with the reference. non-trivial = an \
+         operand or the result needs more than one ciphertext (the shape is cut into blocks).",
+    );
+    rep.assume("u128 schoolbook matrix product / valid cross-correlation modulo t is the reference; BigU schoolbook arithmetic for the RNS-plaintext wrapper");
+    rep.assume("parameter sets are chosen with >= 20 bits of noise head-room for the deepest pipeline (small t against q of 2 x 50..60 bits at the data level), so every result must be exact; a mismatch is judged, never excused by noise");
+    rep.assume("a panic raised by the helper's constructor with an explicit assertion message is a refusal of the shape (skipped, message recorded); any panic after the constructor accepted the shape is a violation");
+    rep.assume("convolution shapes whose kernel has more coefficients than the ring (k_h*k_w > N) admit no blocking at all and are outside the domain (skipped; the helper does not refuse them explicitly, it divides by zero later)");
+    rep.assume("pack_lwe outputs travel through the full Cipher2d serializer (as in the repository's tests): output_terms() describes the un-packed layout only");
+    rep.assume("CKKS: |values| <= 4, scale 2^40, bound = 4*terms*N*4*(21(2N+1)+N+2)/scale + 2^-30 (fresh-noise and rounding calculus of DESIGN.md section 5)");
+    rep.assume("large N (>= 64, the shapes of the repository's unit tests at N = 4096/8192) is not part of the exhaustive claim");
+}
 
-pub fn sections(_cfg: &RunCfg) -> Vec<Box<dyn AnySection>> {
-    vec![]
+// ---------------------------------------------------------------------------------------------
+// notes collected during a section (distinct refusal messages), published as observations
+// ---------------------------------------------------------------------------------------------
+
+fn notes() -> &'static Mutex<BTreeMap<String, u64>> {
+    static N: OnceLock<Mutex<BTreeMap<String, u64>>> = OnceLock::new();
+    N.get_or_init(|| Mutex::new(BTreeMap::new()))
+}
+fn note(s: String) {
+    let mut n = notes().lock().unwrap();
+    if n.len() < 150 || n.contains_key(&s) {
+        *n.entry(s).or_insert(0) += 1;
+    }
+}
+
+struct Observed {
+    inner: Box<dyn AnySection>,
+}
+impl AnySection for Observed {
+    fn name(&self) -> String {
+        self.inner.name()
+    }
+    fn run(self: Box<Self>, rep: &Arc<Report>) {
+        let name = self.inner.name();
+        self.inner.run(rep);
+        let n = notes().lock().unwrap();
+        for (k, v) in n.iter().filter(|(k, _)| k.starts_with(&format!("{name}:"))) {
+            rep.observe(format!("{k} ({v} cases)"));
+        }
+    }
+    fn replay(&self, case: &serde_json::Value) -> Result<CaseOut, String> {
+        self.inner.replay(case)
+    }
+}
+
+// ---------------------------------------------------------------------------------------------
+// kits (context + keys), cached per thread, built under an environment that depends on the
+// parameter set only (so a cached kit is identical to a freshly built one)
+// ---------------------------------------------------------------------------------------------
+
+#[derive(Clone, Copy, PartialEq, Eq, Debug, Hash)]
+enum Keys {
+    None,
+    Auto,
+    GaloisRelin,
+}
+
+struct KitX {
+    kit: Kit,
+    be: Option<BatchEncoder>,
+    ce: Option<CKKSEncoder>,
+    auto: Option<GaloisKeys>,
+    galois: Option<GaloisKeys>,
+    relin: Option<RelinKeys>,
+}
+
+thread_local! {
+    static KITS: RefCell<Vec<(u64, Rc<KitX>)>> = const { RefCell::new(Vec::new()) };
+}
+
+fn kitx(spec: &ParamSpec, keys: Keys, seed: u64) -> Result<Rc<KitX>, String> {
+    let tag = h64(&("c20-kit", spec, keys));
+    if let Some(k) = KITS.with(|c| c.borrow().iter().find(|(t, _)| *t == tag).map(|(_, k)| k.clone())) {
+        return Ok(k);
+    }
+    env_real(seed, tag);
+    let built = guard(|| -> Result<KitX, String> {
+        let kit = Kit::new(spec)?;
+        let (be, ce) = if spec.scheme == Scheme::CKKS { (None, Some(CKKSEncoder::new(kit.ctx.clone()))) } else { (Some(BatchEncoder::new(kit.ctx.clone())), None) };
+        let auto = if keys == Keys::Auto { Some(kit.keygen.create_automorphism_keys(false)) } else { None };
+        let (galois, relin) = if keys == Keys::GaloisRelin { (Some(kit.keygen.create_galois_keys(false)), Some(kit.keygen.create_relin_keys(false))) } else { (None, None) };
+        Ok(KitX { kit, be, ce, auto, galois, relin })
+    });
+    let k = match built {
+        Ok(Ok(k)) => Rc::new(k),
+        Ok(Err(e)) => return Err(e),
+        Err(p) => return Err(format!("context/key construction panicked: {p}")),
+    };
+    KITS.with(|c| {
+        let mut c = c.borrow_mut();
+        if c.len() >= 6 {
+            c.remove(0);
+        }
+        c.push((tag, k.clone()));
+    });
+    Ok(k)
+}
+
+// ---------------------------------------------------------------------------------------------
+// common enums and small helpers
+// ---------------------------------------------------------------------------------------------
+
+#[derive(Serialize, Deserialize, Clone, Copy, Debug, PartialEq, Eq, Hash)]
+pub enum Obj {
+    CipherPlain,
+    PlainCipher,
+    CpAddPc,
+}
+impl Obj {
+    fn all() -> [Obj; 3] {
+        [Obj::CipherPlain, Obj::PlainCipher, Obj::CpAddPc]
+    }
+    fn to(self) -> MatmulHelperObjective {
+        match self {
+            Obj::CipherPlain => MatmulHelperObjective::CipherPlain,
+            Obj::PlainCipher => MatmulHelperObjective::PlainCipher,
+            Obj::CpAddPc => MatmulHelperObjective::CpAddPc,
+        }
+    }
+}
+
+#[derive(Serialize, Deserialize, Clone, Copy, Debug, PartialEq, Eq, Hash)]
+pub enum Dir {
+    /// `[y] = [x] * w`
+    Forward,
+    /// `[y] = x * [w]`
+    Reverse,
+    /// `[y] = [x1] * w0 + x0 * [w1]` (only enumerated with the CpAddPc objective)
+    Sum,
+}
+
+#[derive(Serialize, Deserialize, Clone, Copy, Debug, PartialEq, Eq, Hash)]
+pub enum Transport {
+    /// public-key encryption of the inputs, result decrypted directly
+    Direct,
+    /// symmetric encryption + expand_seed + full serializer round trip of the inputs;
+    /// result through serialize_terms(output_terms) (full serializer when pack_lwe / Bolt)
+    Wire,
+}
+
+fn dense(seed: u64, tag: u64, len: usize, t: u64) -> Vec<u64> {
+    (0..len).map(|i| h64(&(seed, tag, i as u64)) % t).collect()
+}
+fn unit(len: usize, at: usize, v: u64) -> Vec<u64> {
+    let mut x = vec![0u64; len];
+    x[at] = v;
+    x
+}
+
+fn matmul_ref(x: &[u64], w: &[u64], m: usize, r: usize, n: usize, t: u64) -> Vec<u64> {
+    let mut y = vec![0u64; m * n];
+    for i in 0..m {
+        for j in 0..n {
+            let mut s: u128 = 0;
+            for k in 0..r {
+                s = (s + (x[i * r + k] as u128 * w[k * n + j] as u128) % t as u128) % t as u128;
+            }
+            y[i * n + j] = s as u64;
+        }
+    }
+    y
+}
+fn vadd(a: &[u64], b: &[u64], t: u64) -> Vec<u64> {
+    a.iter().zip(b).map(|(&x, &y)| ((x as u128 + y as u128) % t as u128) as u64).collect()
+}
+
+/// explicit refusal (assertion with or without message, bracketed library error) as opposed to a crash
+fn is_explicit_refusal(p: &str) -> bool {
+    let crash = ["index out of bounds", "attempt to", "out of range for slice", "called `Option::unwrap()`", "called `Result::unwrap()`", "slice index", "overflow", "capacity"];
+    !crash.iter().any(|c| p.contains(c)) && (p.contains("assertion") || p.starts_with('[') || p.contains("must"))
+}
+
+struct SoftErr {
+    stage: &'static str,
+    msg: String,
+}
+fn soft<T>(stage: &'static str, r: std::io::Result<T>) -> Result<T, SoftErr> {
+    r.map_err(|e| SoftErr { stage, msg: format!("io error: {e}") })
+}
+
+fn encrypt2d(kx: &KitX, p: &Plain2d, wire: bool, stage: &Cell<&'static str>) -> Result<Cipher2d, SoftErr> {
+    let ctx = &kx.kit.ctx;
+    if !wire {
+        stage.set("encrypt");
+        Ok(p.encrypt(&kx.kit.enc))
+    } else {
+        stage.set("encrypt_symmetric");
+        let c = p.encrypt_symmetric(&kx.kit.enc).expand_seed(ctx);
+        stage.set("serialize_inputs");
+        let mut buf = vec![];
+        let nw = soft("serialize_inputs", c.serialize(ctx, &mut buf))?;
+        if nw != buf.len() || buf.len() != c.serialized_size(ctx) {
+            return Err(SoftErr { stage: "serialize_inputs", msg: format!("returned {nw}, wrote {}, serialized_size {}", buf.len(), c.serialized_size(ctx)) });
+        }
+        soft("deserialize_inputs", Cipher2d::deserialize(ctx, &mut buf.as_slice()))
+    }
+}
+
+/// result transport: `terms` = Some(..) -> serialize_terms round trip, None -> full serializer
+fn transport2d(kx: &KitX, y: Cipher2d, terms: Option<&[usize]>, stage: &Cell<&'static str>) -> Result<Cipher2d, SoftErr> {
+    let ctx = &kx.kit.ctx;
+    let mut buf = vec![];
+    match terms {
+        Some(t) => {
+            stage.set("serialize_terms");
+            let nw = soft("serialize_terms", y.serialize_terms(ctx, t, &mut buf))?;
+            let sz = y.serialized_terms_size(ctx, t.len());
+            if nw != buf.len() || buf.len() != sz {
+                return Err(SoftErr { stage: "serialized_terms_size", msg: format!("returned {nw}, wrote {}, serialized_terms_size {sz}", buf.len()) });
+            }
+            stage.set("deserialize_terms");
+            soft("deserialize_terms", Cipher2d::deserialize_terms(ctx, t, &mut buf.as_slice()))
+        }
+        None => {
+            stage.set("serialize_outputs");
+            let nw = soft("serialize_outputs", y.serialize(ctx, &mut buf))?;
+            if nw != buf.len() || buf.len() != y.serialized_size(ctx) {
+                return Err(SoftErr { stage: "serialized_size", msg: format!("returned {nw}, wrote {}, serialized_size {}", buf.len(), y.serialized_size(ctx)) });
+            }
+            stage.set("deserialize_outputs");
+            soft("deserialize_outputs", Cipher2d::deserialize(ctx, &mut buf.as_slice()))
+        }
+    }
+}
+
+fn dims_p(p: &Plain2d) -> (usize, usize) {
+    (p.data.len(), p.data.first().map(|d| d.len()).unwrap_or(0))
+}
+fn dims_c(c: &Cipher2d) -> (usize, usize) {
+    (c.data.len(), c.data.first().map(|d| d.len()).unwrap_or(0))
+}
+
+fn short(v: &[u64]) -> String {
+    if v.len() <= 48 {
+        format!("{v:?}")
+    } else {
+        format!("{:?}…({} values)", &v[..48], v.len())
+    }
+}
+
+/// outcome of running all fills of a case
+struct Tally {
+    steps: u64,
+    shape: u64,
+    multi: bool,
+}
+
+// ---------------------------------------------------------------------------------------------
+// Cheetah MatmulHelper (BFV / BGV)
+// ---------------------------------------------------------------------------------------------
+
+#[derive(Serialize, Deserialize, Clone, Debug)]
+pub struct MCase {
+    pub spec: ParamSpec,
+    pub m: usize,
+    pub r: usize,
+    pub n: usize,
+    pub obj: Obj,
+    pub pack: bool,
+    pub dir: Dir,
+    pub transport: Transport,
+    /// loop over every pair of unit operands
+    pub units: bool,
+}
+
+struct MFill {
+    kind: &'static str,
+    x: Vec<u64>,
+    w: Vec<u64>,
+    /// second product of Dir::Sum
+    x2: Vec<u64>,
+    w2: Vec<u64>,
+    bias: Option<Vec<u64>>,
+}
+
+fn cheetah_fills(c: &MCase, seed: u64) -> Vec<MFill> {
+    let (m, r, n, t) = (c.m, c.r, c.n, c.spec.t);
+    let mut v = vec![];
+    v.push(MFill { kind: "dense", x: dense(seed, 1, m * r, t), w: dense(seed, 2, r * n, t), x2: dense(seed, 3, m * r, t), w2: dense(seed, 4, r * n, t), bias: Some(dense(seed, 5, m * n, t)) });
+    v.push(MFill { kind: "max", x: vec![t - 1; m * r], w: vec![t - 1; r * n], x2: vec![t - 1; m * r], w2: vec![t - 1; r * n], bias: Some(vec![t - 1; m * n]) });
+    if c.units {
+        for a in 0..m * r {
+            for b in 0..r * n {
+                // second product (Sum): the mirrored unit pair
+                v.push(MFill { kind: "unit", x: unit(m * r, a, 1), w: unit(r * n, b, 1), x2: unit(m * r, m * r - 1 - a, t - 1), w2: unit(r * n, r * n - 1 - b, 1), bias: None });
+            }
+        }
+    }
+    v
+}
+
+fn check_cheetah(c: &MCase, seed: u64) -> CaseOut {
+    let sch = c.spec.scheme;
+    let kx = match kitx(&c.spec, if c.pack { Keys::Auto } else { Keys::None }, seed) {
+        Ok(k) => k,
+        Err(e) => return CaseOut::skip(&format!("parameter set rejected: {e}")),
+    };
+    env_real(seed, h64(&serde_json::to_string(c).unwrap_or_default()));
+    let valid = c.m >= 1 && c.r >= 1 && c.n >= 1 && c.spec.n >= 2;
+    let kp = format!("cheetah:{sch:?}:pack={}", c.pack as u8);
+    let helper = match guard(|| MatmulHelper::new(c.m, c.r, c.n, c.spec.n, c.obj.to(), c.pack)) {
+        Ok(h) => h,
+        Err(p) => {
+            if !valid || is_explicit_refusal(&p) {
+                note(format!("cheetah: constructor refusal: {}", panic_class(&p)));
+                if valid {
+                    return CaseOut::fail(format!("{kp}:new:refused-valid-shape:{}", panic_class(&p)), "shapes with all dimensions >= 1 are accepted", p);
+                }
+                return CaseOut::skip(&format!("shape refused: {}", panic_class(&p)));
+            }
+            return CaseOut::fail(format!("{kp}:new:panic:{}", panic_class(&p)), format!("MatmulHelper::new({},{},{},N={}) returns", c.m, c.r, c.n, c.spec.n), p);
+        }
+    };
+    if !valid {
+        // the constructor accepted a shape with a zero dimension: nothing to compute, outside the domain
+        return CaseOut::skip("zero dimension accepted by the constructor");
+    }
+    let be = kx.be.as_ref().unwrap();
+    let (ev, dec) = (&kx.kit.eval, &kx.kit.dec);
+    let t = c.spec.t;
+    let wire = c.transport == Transport::Wire;
+    let mut tally = Tally { steps: 0, shape: 0, multi: false };
+
+    for f in cheetah_fills(c, seed) {
+        let stage = Cell::new("");
+        let shape = Cell::new(0u64);
+        let multi = Cell::new(false);
+        let run = guard(|| -> Result<Vec<u64>, SoftErr> {
+            let product = |x: &[u64], w: &[u64], reverse: bool| -> Result<Cipher2d, SoftErr> {
+                stage.set("encode_inputs");
+                let xe = helper.encode_inputs_bfv(be, x);
+                stage.set("encode_weights");
+                let we = helper.encode_weights_bfv(be, w);
+                let (dx, dw) = (dims_p(&xe), dims_p(&we));
+                let y = if !reverse {
+                    let xc = encrypt2d(&kx, &xe, wire, &stage)?;
+                    stage.set("matmul");
+                    helper.matmul(ev, &xc, &we)
+                } else {
+                    let wc = encrypt2d(&kx, &we, wire, &stage)?;
+                    stage.set("matmul_reverse");
+                    helper.matmul_reverse(ev, &xe, &wc)
+                };
+                shape.set(h64(&(dx, dw, dims_c(&y))));
+                multi.set(dx.0 * dx.1 > 1 || dw.0 * dw.1 > 1);
+                Ok(y)
+            };
+            let mut y = match c.dir {
+                Dir::Forward => product(&f.x, &f.w, false)?,
+                Dir::Reverse => product(&f.x, &f.w, true)?,
+                Dir::Sum => {
+                    let mut a = product(&f.x, &f.w, false)?;
+                    let b = product(&f.x2, &f.w2, true)?;
+                    stage.set("add_inplace");
+                    a.add_inplace(ev, &b);
+                    a
+                }
+            };
+            if c.pack {
+                stage.set("pack_outputs");
+                y = helper.pack_outputs(ev, kx.auto.as_ref().unwrap(), &y);
+            }
+            if let Some(b) = &f.bias {
+                stage.set("encode_outputs");
+                let pb = helper.encode_outputs_bfv(be, b);
+                stage.set("add_plain_inplace");
+                y.add_plain_inplace(ev, &pb);
+            }
+            if wire {
+                let terms = if c.pack { None } else { Some(helper.output_terms()) };
+                y = transport2d(&kx, y, terms.as_deref(), &stage)?;
+            }
+            stage.set("decrypt_outputs");
+            Ok(helper.decrypt_outputs_bfv(be, dec, &y))
+        });
+        let mut exp = matmul_ref(&f.x, &f.w, c.m, c.r, c.n, t);
+        if c.dir == Dir::Sum {
+            exp = vadd(&exp, &matmul_ref(&f.x2, &f.w2, c.m, c.r, c.n, t), t);
+        }
+        if let Some(b) = &f.bias {
+            exp = vadd(&exp, b, t);
+        }
+        let inp = || format!("fill={} x={} w={}{} bias={}", f.kind, short(&f.x), short(&f.w), if c.dir == Dir::Sum { format!(" x0={} w1={}", short(&f.x2), short(&f.w2)) } else { String::new() }, f.bias.as_ref().map(|b| short(b)).unwrap_or("none".into()));
+        tally.steps += 1;
+        tally.shape = shape.get();
+        tally.multi |= multi.get();
+        match run {
+            Ok(Ok(o)) if o == exp => {}
+            Ok(Ok(o)) => return CaseOut::fail(format!("{kp}:{:?}:{:?}:wrong", c.dir, c.transport), format!("{} -> {}", inp(), short(&exp)), short(&o)),
+            Ok(Err(e)) => return CaseOut::fail(format!("{kp}:{}:error", e.stage), format!("{} -> {}", inp(), short(&exp)), e.msg),
+            Err(p) => return CaseOut::fail(format!("{kp}:{}:panic:{}", stage.get(), panic_class(&p)), format!("{} -> {}", inp(), short(&exp)), p),
+        }
+    }
+    // encode_outputs / decrypt_outputs inverse (dense, sparse and zero tensors)
+    // the inverse does not depend on direction / transport: checked once per (shape, objective, pack)
+    let inv: Vec<(&str, Vec<u64>)> = if c.transport == Transport::Direct && c.dir != Dir::Reverse { vec![("dense", dense(seed, 9, c.m * c.n, t)), ("first", unit(c.m * c.n, 0, 1)), ("last", unit(c.m * c.n, c.m * c.n - 1, t - 1)), ("zero", vec![0; c.m * c.n])] } else { vec![] };
+    for (what, y) in inv {
+        let stage = Cell::new("");
+        let r = guard(|| {
+            stage.set("encode_outputs");
+            let p = helper.encode_outputs_bfv(be, &y);
+            stage.set("encrypt");
+            let ct = p.encrypt(&kx.kit.enc);
+            stage.set("decrypt_outputs");
+            helper.decrypt_outputs_bfv(be, dec, &ct)
+        });
+        tally.steps += 1;
+        match r {
+            Ok(o) if o == y => {}
+            Ok(o) => return CaseOut::fail(format!("{kp}:outputs_inverse:wrong"), format!("decrypt_outputs(encrypt(encode_outputs(y))) = y for the {what} tensor y = {}", short(&y)), short(&o)),
+            Err(p) => {
+                return CaseOut::fail(format!("{kp}:outputs_inverse:{}:panic:{}", stage.get(), panic_class(&p)), format!("decrypt_outputs(encrypt(encode_outputs(y))) = y for the {what} tensor y = {}", short(&y)), p)
+            }
+        }
+    }
+
+    CaseOut::pass(tally.multi, h64(&("cheetah", sch, c.pack, c.dir, c.transport, tally.shape)), tally.steps)
+}
+
+fn cheetah_cases(specs: &[(ParamSpec, Vec<usize>)], cap: usize, zero_dims: bool) -> Vec<MCase> {
+    let mut v = vec![];
+    for (spec, dims) in specs {
+        let mut shapes: Vec<(usize, usize, usize)> = vec![];
+        for &m in dims {
+            for &r in dims {
+                for &n in dims {
+                    shapes.push((m, r, n));
+                }
+            }
+        }
+        shapes.sort_by_key(|&(m, r, n)| (m * r * n, m, r, n));
+        if zero_dims {
+            shapes.extend([(0, 1, 1), (1, 0, 1), (1, 1, 0)]);
+        }
+        for (m, r, n) in shapes {
+            for obj in Obj::all() {
+                for pack in [false, true] {
+                    for dir in [Dir::Forward, Dir::Reverse, Dir::Sum] {
+                        if dir == Dir::Sum && obj != Obj::CpAddPc {
+                            continue;
+                        }
+                        for transport in [Transport::Direct, Transport::Wire] {
+                            let ucap = if transport == Transport::Wire { cap / 4 } else { cap };
+                            v.push(MCase { spec: spec.clone(), m, r, n, obj, pack, dir, transport, units: m * r * r * n <= ucap && m * r * n > 0 });
+                        }
+                    }
+                }
+            }
+        }
+    }
+    v
+}
+
+// ---------------------------------------------------------------------------------------------
+// BOLT slot-packing helpers (BFV / BGV, batching t)
+// ---------------------------------------------------------------------------------------------
+
+#[derive(Serialize, Deserialize, Clone, Copy, Debug, PartialEq, Eq, Hash)]
+pub enum Bolt {
+    Cp,
+    CcCr,
+    CcDc,
+}
+
+#[derive(Serialize, Deserialize, Clone, Debug)]
+pub struct BCase {
+    pub spec: ParamSpec,
+    pub kind: Bolt,
+    pub m: usize,
+    pub r: usize,
+    pub n: usize,
+    pub transport: Transport,
+    pub units: bool,
+}
+
+enum BoltH {
+    Cp(MatmulBoltCp),
+    CcCr(MatmulBoltCcCr),
+    CcDc(MatmulBoltCcDc),
+}
+
+impl BoltH {
+    fn encode_inputs(&self, be: &BatchEncoder, x: &[u64]) -> Plain2d {
+        match self {
+            BoltH::Cp(h) => h.encode_inputs(be, x),
+            BoltH::CcCr(h) => h.encode_inputs(be, x),
+            BoltH::CcDc(h) => h.encode_inputs(be, x),
+        }
+    }
+    fn encode_weights(&self, be: &BatchEncoder, w: &[u64]) -> Plain2d {
+        match self {
+            BoltH::Cp(h) => h.encode_weights(be, w),
+            BoltH::CcCr(h) => h.encode_weights(be, w),
+            BoltH::CcDc(h) => h.encode_weights(be, w),
+        }
+    }
+    fn encode_outputs(&self, be: &BatchEncoder, y: &[u64]) -> Plain2d {
+        match self {
+            BoltH::Cp(h) => h.encode_outputs(be, y),
+            BoltH::CcCr(h) => h.encode_outputs(be, y),
+            BoltH::CcDc(h) => h.encode_outputs(be, y),
+        }
+    }
+    fn decode_outputs(&self, be: &BatchEncoder, y: &Plain2d) -> Vec<u64> {
+        match self {
+            BoltH::Cp(h) => h.decode_outputs(be, y),
+            BoltH::CcCr(h) => h.decode_outputs(be, y),
+            BoltH::CcDc(h) => h.decode_outputs(be, y),
+        }
+    }
+}
+
+fn check_bolt(c: &BCase, seed: u64) -> CaseOut {
+    let sch = c.spec.scheme;
+    let kx = match kitx(&c.spec, Keys::GaloisRelin, seed) {
+        Ok(k) => k,
+        Err(e) => return CaseOut::skip(&format!("parameter set rejected: {e}")),
+    };
+    env_real(seed, h64(&serde_json::to_string(c).unwrap_or_default()));
+    let kp = format!("bolt:{:?}:{sch:?}", c.kind);
+    let nn = c.spec.n;
+    let helper = match guard(|| match c.kind {
+        Bolt::Cp => BoltH::Cp(MatmulBoltCp::new(c.m, c.r, c.n, nn)),
+        Bolt::CcCr => BoltH::CcCr(MatmulBoltCcCr::new(c.m, c.r, c.n, nn)),
+        Bolt::CcDc => BoltH::CcDc(MatmulBoltCcDc::new(c.m, c.r, c.n, nn)),
+    }) {
+        Ok(h) => h,
+        Err(p) => {
+            note(format!("bolt: constructor panic: {}", panic_class(&p)));
+            return CaseOut::fail(format!("{kp}:new:panic:{}", panic_class(&p)), format!("new({},{},{},N={nn}) returns (all dimensions >= 1)", c.m, c.r, c.n), p);
+        }
+    };
+    let be = kx.be.as_ref().unwrap();
+    let (ev, dec) = (&kx.kit.eval, &kx.kit.dec);
+    let (gk, rk) = (kx.galois.as_ref().unwrap(), kx.relin.as_ref().unwrap());
+    let t = c.spec.t;
+    let (m, r, n) = (c.m, c.r, c.n);
+    let wire = c.transport == Transport::Wire;
+    let mut tally = Tally { steps: 0, shape: 0, multi: false };
+
+    for (what, y) in [("dense", dense(seed, 9, m * n, t)), ("first", unit(m * n, 0, 1)), ("last", unit(m * n, m * n - 1, t - 1))] {
+        let stage = Cell::new("");
+        let res = guard(|| {
+            stage.set("encode_outputs");
+            let p = helper.encode_outputs(be, &y);
+            stage.set("decode_outputs");
+            helper.decode_outputs(be, &p)
+        });
+        tally.steps += 1;
+        match res {
+            Ok(o) if o == y => {}
+            Ok(o) => return CaseOut::fail(format!("{kp}:outputs_inverse:wrong"), format!("decode_outputs(encode_outputs(y)) = y for the {what} tensor y = {}", short(&y)), short(&o)),
+            Err(p) => return CaseOut::fail(format!("{kp}:outputs_inverse:{}:panic:{}", stage.get(), panic_class(&p)), format!("decode_outputs(encode_outputs(y)) = y for the {what} tensor y = {}", short(&y)), p),
+        }
+    }
+
+    let mut fills: Vec<(&'static str, Vec<u64>, Vec<u64>, Option<Vec<u64>>)> = vec![];
+    if c.units {
+        for a in 0..m * r {
+            for b in 0..r * n {
+                fills.push(("unit", unit(m * r, a, 1), unit(r * n, b, t - 1), None));
+            }
+        }
+    }
+    fills.push(("dense", dense(seed, 1, m * r, t), dense(seed, 2, r * n, t), Some(dense(seed, 5, m * n, t))));
+    fills.push(("max", vec![t - 1; m * r], vec![t - 1; r * n], Some(vec![t - 1; m * n])));
+
+    for (kind, x, w, bias) in fills {
+        let stage = Cell::new("");
+        let shape = Cell::new(0u64);
+        let multi = Cell::new(false);
+        let budget = Cell::new(usize::MAX);
+        let run = guard(|| -> Result<Vec<u64>, SoftErr> {
+            stage.set("encode_inputs");
+            let xe = helper.encode_inputs(be, &x);
+            stage.set("encode_weights");
+            let we = helper.encode_weights(be, &w);
+            let xc = encrypt2d(&kx, &xe, wire, &stage)?;
+            let mut y = match &helper {
+                BoltH::Cp(h) => {
+                    stage.set("multiply");
+                    h.multiply(ev, gk, &xc, &we)
+                }
+                BoltH::CcCr(h) => {
+                    let wc = encrypt2d(&kx, &we, wire, &stage)?;
+                    stage.set("multiply");
+                    h.multiply(be, ev, gk, rk, &xc, &wc)
+                }
+                BoltH::CcDc(h) => {
+                    let wc = encrypt2d(&kx, &we, wire, &stage)?;
+                    stage.set("multiply");
+                    h.multiply(be, ev, gk, rk, &xc, &wc)
+                }
+            };
+            shape.set(h64(&(dims_p(&xe), dims_p(&we), dims_c(&y))));
+            multi.set(xe.data.iter().map(|d| d.len()).sum::<usize>() > 1 || y.data.iter().map(|d| d.len()).sum::<usize>() > 1);
+            if let Some(b) = &bias {
+                stage.set("encode_outputs");
+                let pb = helper.encode_outputs(be, b);
+                stage.set("add_plain_inplace");
+                y.add_plain_inplace(ev, &pb);
+            }
+            if wire {
+                y = transport2d(&kx, y, None, &stage)?;
+            }
+            if sch == Scheme::BFV {
+                stage.set("noise_budget");
+                budget.set(y.data.iter().flat_map(|d| d.data.iter()).map(|ct| dec.invariant_noise_budget(ct)).min().unwrap_or(0));
+            }
+            stage.set("decrypt");
+            let yp = y.decrypt(dec);
+            stage.set("decode_outputs");
+            Ok(helper.decode_outputs(be, &yp))
+        });
+        let mut exp = matmul_ref(&x, &w, m, r, n, t);
+        if let Some(b) = &bias {
+            exp = vadd(&exp, b, t);
+        }
+        let inp = || format!("fill={kind} x={} w={} bias={}", short(&x), short(&w), bias.as_ref().map(|b| short(b)).unwrap_or("none".into()));
+        tally.steps += 1;
+        tally.shape = shape.get();
+        tally.multi |= multi.get();
+        match run {
+            Ok(Ok(o)) if o == exp => {}
+            Ok(Ok(o)) => return CaseOut::fail(format!("{kp}:{:?}:wrong", c.transport), format!("{} -> {}", inp(), short(&exp)), format!("{} (minimum noise budget of the outputs: {} bits)", short(&o), budget.get())),
+            Ok(Err(e)) => return CaseOut::fail(format!("{kp}:{}:error", e.stage), format!("{} -> {}", inp(), short(&exp)), e.msg),
+            Err(p) => return CaseOut::fail(format!("{kp}:{}:panic:{}", stage.get(), panic_class(&p)), format!("{} -> {}", inp(), short(&exp)), p),
+        }
+    }
+    CaseOut::pass(tally.multi, h64(&("bolt", c.kind, sch, c.transport, tally.shape)), tally.steps)
+}
+
+fn bolt_cases(specs: &[(ParamSpec, Vec<usize>, usize)]) -> Vec<BCase> {
+    let mut v = vec![];
+    for (spec, dims, cap) in specs {
+        let mut shapes: Vec<(usize, usize, usize)> = vec![];
+        for &m in dims {
+            for &r in dims {
+                for &n in dims {
+                    shapes.push((m, r, n));
+                }
+            }
+        }
+        shapes.sort_by_key(|&(m, r, n)| (m * r * n, m, r, n));
+        for (m, r, n) in shapes {
+            for kind in [Bolt::Cp, Bolt::CcCr, Bolt::CcDc] {
+                for transport in [Transport::Direct, Transport::Wire] {
+                    v.push(BCase { spec: spec.clone(), kind, m, r, n, transport, units: transport == Transport::Direct && m * r * r * n <= *cap });
+                }
+            }
+        }
+    }
+    v
+}
+
+// ---------------------------------------------------------------------------------------------
+// Conv2dHelper (BFV / BGV)
+// ---------------------------------------------------------------------------------------------
+
+#[derive(Serialize, Deserialize, Clone, Copy, Debug, PartialEq, Eq, Hash)]
+pub struct ConvShape {
+    pub b: usize,
+    pub ci: usize,
+    pub co: usize,
+    pub h: usize,
+    pub w: usize,
+    pub kh: usize,
+    pub kw: usize,
+}
+impl ConvShape {
+    fn in_len(&self) -> usize {
+        self.b * self.ci * self.h * self.w
+    }
+    fn w_len(&self) -> usize {
+        self.co * self.ci * self.kh * self.kw
+    }
+    fn out_len(&self) -> usize {
+        self.b * self.co * (self.h - self.kh + 1) * (self.w - self.kw + 1)
+    }
+}
+
+#[derive(Serialize, Deserialize, Clone, Debug)]
+pub struct VCase {
+    pub spec: ParamSpec,
+    pub s: ConvShape,
+    pub obj: Obj,
+    pub dir: Dir,
+    pub transport: Transport,
+    /// 0: dense + max only, 1: + every input unit against dense weights and every weight unit against dense inputs,
+    /// 2: + every pair of unit operands
+    pub units: u8,
+}
+
+/// valid cross-correlation: y[b,oc,i,j] = sum_{ic,ki,kj} x[b,ic,i+ki,j+kj] * w[oc,ic,ki,kj] mod t
+fn conv_ref(x: &[u64], w: &[u64], s: &ConvShape, t: u64) -> Vec<u64> {
+    let (oh, ow) = (s.h - s.kh + 1, s.w - s.kw + 1);
+    let mut y = vec![0u64; s.out_len()];
+    for b in 0..s.b {
+        for oc in 0..s.co {
+            for i in 0..oh {
+                for j in 0..ow {
+                    let mut acc: u128 = 0;
+                    for ic in 0..s.ci {
+                        for ki in 0..s.kh {
+                            for kj in 0..s.kw {
+                                let xi = ((b * s.ci + ic) * s.h + i + ki) * s.w + j + kj;
+                                let wi = ((oc * s.ci + ic) * s.kh + ki) * s.kw + kj;
+                                acc = (acc + (x[xi] as u128 * w[wi] as u128) % t as u128) % t as u128;
+                            }
+                        }
+                    }
+                    y[((b * s.co + oc) * oh + i) * ow + j] = acc as u64;
+                }
+            }
+        }
+    }
+    y
+}
+
+fn conv_fills(c: &VCase, seed: u64) -> Vec<(&'static str, Vec<u64>, Vec<u64>, Option<Vec<u64>>)> {
+    let (s, t) = (&c.s, c.spec.t);
+    let (li, lw, lo) = (s.in_len(), s.w_len(), s.out_len());
+    // dense fills first: a defect of the blocking shows up before the sparse fills are reached
+    let mut v = vec![];
+    v.push(("dense", dense(seed, 1, li, t), dense(seed, 2, lw, t), Some(dense(seed, 5, lo, t))));
+    v.push(("max", vec![t - 1; li], vec![t - 1; lw], Some(vec![t - 1; lo])));
+    if c.units >= 2 {
+        for a in 0..li {
+            for b in 0..lw {
+                v.push(("unit", unit(li, a, 1), unit(lw, b, t - 1), None));
+            }
+        }
+    } else if c.units == 1 {
+        let (dx, dw) = (dense(seed, 1, li, t), dense(seed, 2, lw, t));
+        for a in 0..li {
+            v.push(("unit-x", unit(li, a, 1), dw.clone(), None));
+        }
+        for b in 0..lw {
+            v.push(("unit-w", dx.clone(), unit(lw, b, 1), None));
+        }
+    }
+    v
+}
+
+fn check_conv(c: &VCase, seed: u64) -> CaseOut {
+    let sch = c.spec.scheme;
+    let s = c.s;
+    let kx = match kitx(&c.spec, Keys::None, seed) {
+        Ok(k) => k,
+        Err(e) => return CaseOut::skip(&format!("parameter set rejected: {e}")),
+    };
+    env_real(seed, h64(&serde_json::to_string(c).unwrap_or_default()));
+    let kp = format!("conv2d:{sch:?}");
+    let nn = c.spec.n;
+    let fits = s.kh * s.kw <= nn;
+    let helper = match guard(|| Conv2dHelper::new(s.b, s.ci, s.co, s.h, s.w, s.kh, s.kw, nn, c.obj.to())) {
+        Ok(h) => h,
+        Err(p) => {
+            note(format!("conv2d: constructor panic: {}", panic_class(&p)));
+            if !fits {
+                return CaseOut::skip(&format!("kernel larger than the ring, constructor: {}", panic_class(&p)));
+            }
+            return CaseOut::fail(format!("{kp}:new:panic:{}", panic_class(&p)), format!("Conv2dHelper::new({s:?}, N={nn}) returns"), p);
+        }
+    };
+    let be = kx.be.as_ref().unwrap();
+    let (ev, dec) = (&kx.kit.eval, &kx.kit.dec);
+    let t = c.spec.t;
+    let wire = c.transport == Transport::Wire;
+    let mut tally = Tally { steps: 0, shape: 0, multi: false };
+
+    if !fits {
+        // no blocking exists; whatever happens is outside the domain, but record how the helper reacts
+        let x = vec![1u64; s.in_len()];
+        let r = guard(|| helper.encode_inputs_bfv(be, &x));
+        let how = match r {
+            Ok(_) => "accepted".to_string(),
+            Err(p) => panic_class(&p),
+        };
+        note(format!("conv2d: kernel with more coefficients than the ring (k_h*k_w > N) is not refused by the constructor; encode_inputs: {how}"));
+        return CaseOut::skip(&format!("kernel larger than the ring: {how}"));
+    }
+
+    for (kind, x, w, bias) in conv_fills(c, seed) {
+        let stage = Cell::new("");
+        let shape = Cell::new(0u64);
+        let multi = Cell::new(false);
+        let run = guard(|| -> Result<Vec<u64>, SoftErr> {
+            stage.set("encode_inputs");
+            let xe = helper.encode_inputs_bfv(be, &x);
+            stage.set("encode_weights");
+            let we = helper.encode_weights_bfv(be, &w);
+            let mut y = if c.dir == Dir::Forward {
+                let xc = encrypt2d(&kx, &xe, wire, &stage)?;
+                stage.set("conv2d");
+                helper.conv2d(ev, &xc, &we)
+            } else {
+                let wc = encrypt2d(&kx, &we, wire, &stage)?;
+                stage.set("conv2d_reverse");
+                helper.conv2d_reverse(ev, &xe, &wc)
+            };
+            shape.set(h64(&(dims_p(&xe), dims_p(&we), dims_c(&y))));
+            let (dx, dw) = (dims_p(&xe), dims_p(&we));
+            multi.set(dx.0 * dx.1 > 1 || dw.0 * dw.1 > 1);
+            if let Some(b) = &bias {
+                stage.set("encode_outputs");
+                let pb = helper.encode_outputs_bfv(be, b);
+                stage.set("add_plain_inplace");
+                y.add_plain_inplace(ev, &pb);
+            }
+            if wire {
+                let terms = helper.output_terms();
+                y = transport2d(&kx, y, Some(&terms), &stage)?;
+            }
+            stage.set("decrypt_outputs");
+            Ok(helper.decrypt_outputs_bfv(be, dec, &y))
+        });
+        let mut exp = conv_ref(&x, &w, &s, t);
+        if let Some(b) = &bias {
+            exp = vadd(&exp, b, t);
+        }
+        let inp = || format!("fill={kind} x={} w={} bias={}", short(&x), short(&w), bias.as_ref().map(|b| short(b)).unwrap_or("none".into()));
+        tally.steps += 1;
+        tally.shape = shape.get();
+        tally.multi |= multi.get();
+        match run {
+            Ok(Ok(o)) if o == exp => {}
+            Ok(Ok(o)) => return CaseOut::fail(format!("{kp}:{:?}:{:?}:wrong", c.dir, c.transport), format!("{} -> {}", inp(), short(&exp)), short(&o)),
+            Ok(Err(e)) => return CaseOut::fail(format!("{kp}:{}:error", e.stage), format!("{} -> {}", inp(), short(&exp)), e.msg),
+            Err(p) => return CaseOut::fail(format!("{kp}:{}:panic:{}", stage.get(), panic_class(&p)), format!("{} -> {}", inp(), short(&exp)), p),
+        }
+    }
+    // the inverse does not depend on direction / transport: checked once per (shape, objective)
+    let inv: Vec<(&str, Vec<u64>)> = if c.transport == Transport::Direct && c.dir == Dir::Forward { vec![("dense", dense(seed, 9, s.out_len(), t)), ("first", unit(s.out_len(), 0, 1)), ("last", unit(s.out_len(), s.out_len() - 1, t - 1)), ("zero", vec![0; s.out_len()])] } else { vec![] };
+    for (what, y) in inv {
+        let stage = Cell::new("");
+        let r = guard(|| {
+            stage.set("encode_outputs");
+            let p = helper.encode_outputs_bfv(be, &y);
+            stage.set("encrypt");
+            let ct = p.encrypt(&kx.kit.enc);
+            stage.set("decrypt_outputs");
+            helper.decrypt_outputs_bfv(be, dec, &ct)
+        });
+        tally.steps += 1;
+        match r {
+            Ok(o) if o == y => {}
+            Ok(o) => return CaseOut::fail(format!("{kp}:outputs_inverse:wrong"), format!("decrypt_outputs(encrypt(encode_outputs(y))) = y for the {what} tensor y = {}", short(&y)), short(&o)),
+            Err(p) => {
+                return CaseOut::fail(format!("{kp}:outputs_inverse:{}:panic:{}", stage.get(), panic_class(&p)), format!("decrypt_outputs(encrypt(encode_outputs(y))) = y for the {what} tensor y = {}", short(&y)), p)
+            }
+        }
+    }
+
+    CaseOut::pass(tally.multi, h64(&("conv2d", sch, c.dir, c.transport, tally.shape)), tally.steps)
+}
+
+fn conv_shapes(bmax: usize, cmax: usize, hmax: usize, wmax: usize, kmax: usize) -> Vec<ConvShape> {
+    let mut v = vec![];
+    for b in 1..=bmax {
+        for ci in 1..=cmax {
+            for co in 1..=cmax {
+                for h in 1..=hmax {
+                    for w in 1..=wmax {
+                        for kh in 1..=h.min(kmax) {
+                            for kw in 1..=w.min(kmax) {
+                                v.push(ConvShape { b, ci, co, h, w, kh, kw });
+                            }
+                        }
+                    }
+                }
+            }
+        }
+    }
+    v.sort_by_key(|s| (s.in_len() * s.w_len(), s.in_len(), s.b, s.ci, s.co, s.h, s.w, s.kh, s.kw));
+    v
+}
+
+fn conv_cases(specs: &[(ParamSpec, Vec<ConvShape>, usize, usize)]) -> Vec<VCase> {
+    let mut v = vec![];
+    for (spec, shapes, pair_cap, side_cap) in specs {
+        let (pair_cap, side_cap) = (*pair_cap, *side_cap);
+        for s in shapes {
+            for obj in Obj::all() {
+                for dir in [Dir::Forward, Dir::Reverse] {
+                    for transport in [Transport::Direct, Transport::Wire] {
+                        let units = if transport == Transport::Wire {
+                            0
+                        } else if s.in_len() * s.w_len() <= pair_cap {
+                            2
+                        } else if s.in_len() + s.w_len() <= side_cap {
+                            1
+                        } else {
+                            0
+                        };
+                        v.push(VCase { spec: spec.clone(), s: *s, obj, dir, transport, units });
+                    }
+                }
+            }
+        }
+    }
+    v
+}
+
+// ---------------------------------------------------------------------------------------------
+// CKKS variants (Cheetah matmul and conv2d) on a sub-box, a-priori bound
+// ---------------------------------------------------------------------------------------------
+
+#[derive(Serialize, Deserialize, Clone, Debug)]
+pub enum KShape {
+    Matmul { m: usize, r: usize, n: usize, pack: bool },
+    Conv(ConvShape),
+}
+
+#[derive(Serialize, Deserialize, Clone, Debug)]
+pub struct KCase {
+    pub spec: ParamSpec,
+    pub log_scale: u32,
+    pub shape: KShape,
+    pub obj: Obj,
+    pub dir: Dir,
+    pub transport: Transport,
+}
+
+const CK_B: f64 = 4.0;
+
+/// deterministic values in [-4, 4], multiples of 1/8 (products are multiples of 1/64: any index
+/// mistake is far above the bound)
+fn fdense(seed: u64, tag: u64, len: usize) -> Vec<f64> {
+    (0..len).map(|i| ((h64(&(seed, tag, i as u64)) % 65) as f64 - 32.0) / 8.0).collect()
+}
+
+fn fmatmul_ref(x: &[f64], w: &[f64], m: usize, r: usize, n: usize) -> Vec<f64> {
+    let mut y = vec![0.0; m * n];
+    for i in 0..m {
+        for j in 0..n {
+            for k in 0..r {
+                y[i * n + j] += x[i * r + k] * w[k * n + j];
+            }
+        }
+    }
+    y
+}
+fn fconv_ref(x: &[f64], w: &[f64], s: &ConvShape) -> Vec<f64> {
+    let (oh, ow) = (s.h - s.kh + 1, s.w - s.kw + 1);
+    let mut y = vec![0.0; s.out_len()];
+    for b in 0..s.b {
+        for oc in 0..s.co {
+            for i in 0..oh {
+                for j in 0..ow {
+                    let mut acc = 0.0;
+                    for ic in 0..s.ci {
+                        for ki in 0..s.kh {
+                            for kj in 0..s.kw {
+                                acc += x[((b * s.ci + ic) * s.h + i + ki) * s.w + j + kj] * w[((oc * s.ci + ic) * s.kh + ki) * s.kw + kj];
+                            }
+                        }
+                    }
+                    y[((b * s.co + oc) * oh + i) * ow + j] = acc;
+                }
+            }
+        }
+    }
+    y
+}
+
+fn fshort(v: &[f64]) -> String {
+    let s: Vec<String> = v.iter().take(32).map(|x| format!("{x:.6}")).collect();
+    format!("[{}]{}", s.join(", "), if v.len() > 32 { format!("…({} values)", v.len()) } else { String::new() })
+}
+
+fn check_ckks(c: &KCase, seed: u64) -> CaseOut {
+    let pack = matches!(c.shape, KShape::Matmul { pack: true, .. });
+    let kx = match kitx(&c.spec, if pack { Keys::Auto } else { Keys::None }, seed) {
+        Ok(k) => k,
+        Err(e) => return CaseOut::skip(&format!("parameter set rejected: {e}")),
+    };
+    env_real(seed, h64(&serde_json::to_string(c).unwrap_or_default()));
+    let nn = c.spec.n;
+    let ce = kx.ce.as_ref().unwrap();
+    let (ev, dec) = (&kx.kit.eval, &kx.kit.dec);
+    let scale = 2f64.powi(c.log_scale as i32);
+    let wire = c.transport == Transport::Wire;
+    let what = match &c.shape {
+        KShape::Matmul { pack, .. } => format!("cheetah:CKKS:pack={}", *pack as u8),
+        KShape::Conv(_) => "conv2d:CKKS".to_string(),
+    };
+    enum H {
+        M(MatmulHelper, usize, usize, usize),
+        C(Conv2dHelper, ConvShape),
+    }
+    let built = guard(|| match &c.shape {
+        KShape::Matmul { m, r, n, pack } => H::M(MatmulHelper::new(*m, *r, *n, nn, c.obj.to(), *pack), *m, *r, *n),
+        KShape::Conv(s) => H::C(Conv2dHelper::new(s.b, s.ci, s.co, s.h, s.w, s.kh, s.kw, nn, c.obj.to()), *s),
+    });
+    let helper = match built {
+        Ok(h) => h,
+        Err(p) => return CaseOut::fail(format!("{what}:new:panic:{}", panic_class(&p)), "constructor returns for a shape with all dimensions >= 1", p),
+    };
+    let (lx, lw, lo, terms) = match &helper {
+        H::M(_, m, r, n) => (m * r, r * n, m * n, *r),
+        H::C(_, s) => {
+            if s.kh * s.kw > nn {
+                return CaseOut::skip("kernel larger than the ring");
+            }
+            (s.in_len(), s.w_len(), s.out_len(), s.ci * s.kh * s.kw)
+        }
+    };
+    // a-priori bound (see describe())
+    let nf = nn as f64;
+    let bound = 4.0 * terms as f64 * nf * CK_B * (21.0 * (2.0 * nf + 1.0) + nf + 2.0) / scale + 2f64.powi(-30);
+    if bound > 1.0 / 256.0 {
+        return CaseOut::skip("a-priori bound too weak to separate index mistakes");
+    }
+    let fills: Vec<(&'static str, Vec<f64>, Vec<f64>, Vec<f64>)> = vec![
+        ("dense", fdense(seed, 1, lx), fdense(seed, 2, lw), fdense(seed, 5, lo)),
+        ("max", vec![CK_B; lx], vec![-CK_B; lw], vec![CK_B; lo]),
+        ("first-unit", { let mut v = vec![0.0; lx]; v[0] = 1.0; v }, { let mut v = vec![0.0; lw]; v[0] = 1.0; v }, vec![0.0; lo]),
+    ];
+    let mut steps = 0u64;
+    let mut shape_h = 0u64;
+    let mut multi_any = false;
+    for (kind, x, w, bias) in fills {
+        let stage = Cell::new("");
+        let shape = Cell::new(0u64);
+        let multi = Cell::new(false);
+        let run = guard(|| -> Result<Vec<f64>, SoftErr> {
+            stage.set("encode_inputs");
+            let xe = match &helper {
+                H::M(h, ..) => h.encode_inputs_ckks(ce, &x, None, scale),
+                H::C(h, _) => h.encode_inputs_ckks(ce, &x, None, scale),
+            };
+            stage.set("encode_weights");
+            let we = match &helper {
+                H::M(h, ..) => h.encode_weights_ckks(ce, &w, None, scale),
+                H::C(h, _) => h.encode_weights_ckks(ce, &w, None, scale),
+            };
+            let (dx, dw) = (dims_p(&xe), dims_p(&we));
+            multi.set(dx.0 * dx.1 > 1 || dw.0 * dw.1 > 1);
+            let mut y = if c.dir == Dir::Forward {
+                let xc = encrypt2d(&kx, &xe, wire, &stage)?;
+                stage.set("multiply");
+                match &helper {
+                    H::M(h, ..) => h.matmul(ev, &xc, &we),
+                    H::C(h, _) => h.conv2d(ev, &xc, &we),
+                }
+            } else {
+                let wc = encrypt2d(&kx, &we, wire, &stage)?;
+                stage.set("multiply_reverse");
+                match &helper {
+                    H::M(h, ..) => h.matmul_reverse(ev, &xe, &wc),
+                    H::C(h, _) => h.conv2d_reverse(ev, &xe, &wc),
+                }
+            };
+            shape.set(h64(&(dx, dw, dims_c(&y))));
+            if let H::M(h, ..) = &helper {
+                if h.pack_lwe() {
+                    stage.set("pack_outputs");
+                    y = h.pack_outputs(ev, kx.auto.as_ref().unwrap(), &y);
+                }
+            }
+            stage.set("rescale");
+            y.rescale_to_next_inplace(ev);
+            stage.set("encode_outputs");
+            let first = &y.data[0].data[0];
+            let (pid, sc) = (*first.parms_id(), first.scale());
+            let pb = match &helper {
+                H::M(h, ..) => h.encode_outputs_ckks(ce, &bias, Some(pid), sc),
+                H::C(h, _) => h.encode_outputs_ckks(ce, &bias, Some(pid), sc),
+            };
+            stage.set("add_plain_inplace");
+            y.add_plain_inplace(ev, &pb);
+            if wire {
+                let terms = match &helper {
+                    H::M(h, ..) => {
+                        if h.pack_lwe() {
+                            None
+                        } else {
+                            Some(h.output_terms())
+                        }
+                    }
+                    H::C(h, _) => Some(h.output_terms()),
+                };
+                y = transport2d(&kx, y, terms.as_deref(), &stage)?;
+            }
+            stage.set("decrypt_outputs");
+            Ok(match &helper {
+                H::M(h, ..) => h.decrypt_outputs_ckks(ce, dec, &y),
+                H::C(h, _) => h.decrypt_outputs_ckks(ce, dec, &y),
+            })
+        });
+        let mut exp = match &helper {
+            H::M(_, m, r, n) => fmatmul_ref(&x, &w, *m, *r, *n),
+            H::C(_, s) => fconv_ref(&x, &w, s),
+        };
+        for (e, b) in exp.iter_mut().zip(&bias) {
+            *e += b;
+        }
+        steps += 1;
+        shape_h = shape.get();
+        multi_any |= multi.get();
+        let inp = || format!("fill={kind} x={} w={} bias={}", fshort(&x), fshort(&w), fshort(&bias));
+        match run {
+            Ok(Ok(o)) => {
+                let worst = o.iter().zip(&exp).map(|(a, b)| (a - b).abs()).fold(0.0, f64::max);
+                if o.len() != exp.len() || !(worst <= bound) {
+                    return CaseOut::fail(format!("{what}:{:?}:{:?}:wrong", c.dir, c.transport), format!("{} -> {} within {bound:e}", inp(), fshort(&exp)), format!("{} (max error {worst:e})", fshort(&o)));
+                }
+            }
+            Ok(Err(e)) => return CaseOut::fail(format!("{what}:{}:error", e.stage), format!("{} -> {}", inp(), fshort(&exp)), e.msg),
+            Err(p) => return CaseOut::fail(format!("{what}:{}:panic:{}", stage.get(), panic_class(&p)), format!("{} -> {}", inp(), fshort(&exp)), p),
+        }
+    }
+    CaseOut::pass(multi_any, h64(&(what.as_str(), c.dir, c.transport, shape_h)), steps)
+}
+
+fn ckks_cases(specs: &[(ParamSpec, u32, usize, Vec<ConvShape>)]) -> Vec<KCase> {
+    let mut v = vec![];
+    for (spec, log_scale, b, convs) in specs {
+        for m in 1..=*b {
+            for r in 1..=*b {
+                for n in 1..=*b {
+                    for obj in Obj::all() {
+                        for pack in [false, true] {
+                            for dir in [Dir::Forward, Dir::Reverse] {
+                                for transport in [Transport::Direct, Transport::Wire] {
+                                    v.push(KCase { spec: spec.clone(), log_scale: *log_scale, shape: KShape::Matmul { m, r, n, pack }, obj, dir, transport });
+                                }
+                            }
+                        }
+                    }
+                }
+            }
+        }
+        for s in convs {
+            for obj in Obj::all() {
+                for dir in [Dir::Forward, Dir::Reverse] {
+                    for transport in [Transport::Direct, Transport::Wire] {
+                        v.push(KCase { spec: spec.clone(), log_scale: *log_scale, shape: KShape::Conv(*s), obj, dir, transport });
+                    }
+                }
+            }
+        }
+    }
+    v
+}
+
+// ---------------------------------------------------------------------------------------------
+// RNS-plaintext wrapper
+// ---------------------------------------------------------------------------------------------
+
+#[derive(Serialize, Deserialize, Clone, Debug)]
+pub struct RCase {
+    pub scheme: Scheme,
+    pub n: usize,
+    pub q: Vec<u64>,
+    /// plain moduli
+    pub t: Vec<u64>,
+    /// slot (batch) encoding or coefficient (polynomial) encoding
+    pub batch: bool,
+    pub op: String,
+    /// 0: all pairs of the value set; 1..: value a paired with partner_k(a)
+    pub partner: u8,
+    /// value set: every residue modulo the product (true) or the boundary set (false)
+    pub all: bool,
+    /// this case handles the slot vectors whose index is congruent to `part` modulo `parts`
+    pub part: usize,
+    pub parts: usize,
+}
+
+const R_OPS: &[&str] = &["roundtrip", "add", "sub", "multiply", "square", "negate", "add_plain", "sub_plain", "multiply_plain", "mod_switch"];
+
+struct RKit {
+    ctx: RnspHeContext,
+    enc: RnspBatchEncoder,
+    encryptor: RnspEncryptor,
+    dec: RnspDecryptor,
+    ev: RnspEvaluator,
+    rk: RnspRelinKeys,
+}
+
+fn rnsp_values(c: &RCase, p: &BigU) -> Vec<BigU> {
+    if c.all {
+        let pm = p.to_u64().expect("exhaustive value set needs a one-word product");
+        (0..pm).map(BigU::from_u64).collect()
+    } else {
+        let one = BigU::one();
+        let mut v = vec![BigU::zero(), one.clone(), BigU::from_u64(2), p.sub(&one), p.sub(&BigU::from_u64(2)), p.shr(1), p.shr(1).add(&one)];
+        for &ti in &c.t {
+            for d in [0u64, 1] {
+                v.push(BigU::from_u64(ti - d).rem(p));
+                v.push(BigU::from_u64(ti + 1).rem(p));
+                // P/t_i and neighbours: the CRT basis boundaries
+                let pi = p.div(&BigU::from_u64(ti));
+                v.push(pi.clone());
+                v.push(pi.sub(&one));
+                v.push(pi.mul_u64(ti - 1).rem(p));
+            }
+        }
+        v.push(BigU::from_limbs(&[0x5555_5555_5555_5555, 0x5555_5555_5555_5555, 0x5555]).rem(p));
+        v.push(BigU::from_limbs(&[u64::MAX, u64::MAX, u64::MAX]).rem(p));
+        v.sort();
+        v.dedup();
+        v
+    }
+}
+
+fn check_rnsp(c: &RCase, seed: u64) -> CaseOut {
+    let tag = h64(&serde_json::to_string(c).unwrap_or_default());
+    env_real(seed, tag);
+    let k = c.t.len();
+    let n = c.n;
+    let kp = format!("rnsp:{:?}:{}:{}", c.scheme, if c.batch { "batch" } else { "poly" }, c.op);
+    let built = guard(|| {
+        let parms = RnspEncryptionParameters::new(c.scheme.ty())
+            .set_poly_modulus_degree(n)
+            .set_plain_modulus(c.t.iter().map(|&v| heathcliff::Modulus::new(v)).collect())
+            .set_coeff_modulus(c.q.iter().map(|&v| heathcliff::Modulus::new(v)).collect());
+        let ctx = RnspHeContext::new(parms, true, heathcliff::SecurityLevel::None);
+        if !ctx.parameters_set() {
+            return None;
+        }
+        let kg = RnspKeyGenerator::new(&ctx);
+        let sk = kg.get_secret_key();
+        let pk = kg.create_public_key(false);
+        let rk = kg.create_relin_keys(false);
+        Some(RKit {
+            enc: RnspBatchEncoder::new(&ctx),
+            encryptor: RnspEncryptor::new(&ctx).set_public_key(pk).set_secret_key(sk.clone()),
+            dec: RnspDecryptor::new(&ctx, sk),
+            ev: RnspEvaluator::new(&ctx),
+            rk,
+            ctx,
+        })
+    });
+    let kit = match built {
+        Ok(Some(k)) => k,
+        Ok(None) => return CaseOut::skip("parameter set rejected"),
+        Err(p) => return CaseOut::skip(&format!("parameter set rejected: {}", panic_class(&p))),
+    };
+    let p = BigU::product(&c.t);
+    let vals = rnsp_values(c, &p);
+    // operand pairs
+    let mut pairs: Vec<(BigU, BigU)> = vec![];
+    if c.partner == 0 {
+        for a in &vals {
+            for b in &vals {
+                pairs.push((a.clone(), b.clone()));
+            }
+        }
+    } else {
+        let g = BigU::from_u64(h64(&(seed, "rnsp-g")) | 1).rem(&p);
+        let off = BigU::from_u64(h64(&(seed, "rnsp-c"))).rem(&p);
+        for a in &vals {
+            let b = match c.partner {
+                1 => a.clone(),
+                2 => p.sub(&BigU::one()).sub(a),
+                3 => a.mul(&g).add(&off).rem(&p),
+                4 => p.sub(&BigU::one()),
+                _ => BigU::one(),
+            };
+            pairs.push((a.clone(), b));
+        }
+    }
+    let words = |v: &[BigU]| -> Vec<u64> { v.iter().flat_map(|x| x.limbs(k)).collect() };
+    let unwords = |w: &[u64]| -> Vec<BigU> { w.chunks(k).map(BigU::from_limbs).collect() };
+    let submod = |a: &BigU, b: &BigU| a.add(&p).sub(b).rem(&p);
+    // reference on one slot vector (batch: slot-wise; poly: ring Z_P[X]/(X^N+1))
+    let ref_mul = |a: &[BigU], b: &[BigU]| -> Vec<BigU> {
+        if c.batch {
+            a.iter().zip(b).map(|(x, y)| x.mul(y).rem(&p)).collect()
+        } else {
+            let mut r = vec![BigU::zero(); n];
+            for i in 0..n {
+                for j in 0..n {
+                    let pr = a[i].mul(&b[j]).rem(&p);
+                    let kk = (i + j) % n;
+                    r[kk] = if i + j < n { r[kk].add(&pr).rem(&p) } else { submod(&r[kk], &pr) };
+                }
+            }
+            r
+        }
+    };
+    let empty = || RnspCiphertext::from_raw_parts(vec![Ciphertext::new(); k]);
+    let mut steps = 0u64;
+    for (ci, chunk) in pairs.chunks(n).enumerate() {
+        if ci % c.parts.max(1) != c.part {
+            continue;
+        }
+        let mut a: Vec<BigU> = chunk.iter().map(|x| x.0.clone()).collect();
+        let mut b: Vec<BigU> = chunk.iter().map(|x| x.1.clone()).collect();
+        a.resize(n, BigU::zero());
+        b.resize(n, BigU::zero());
+        // the last chunk is passed un-padded to exercise the encoder's own padding
+        let la = chunk.len() * k;
+        let stage = Cell::new("");
+        let form = ci % 3; // 0: _new, 1: _inplace, 2: destination form
+        let run = guard(|| -> Vec<(String, Vec<BigU>, Vec<BigU>)> {
+            let (wa, wb) = (words(&a), words(&b));
+            stage.set("encode");
+            let (pa, pb) = if c.batch { (kit.enc.encode_new(&wa[..la]), kit.enc.encode_new(&wb[..la])) } else { (kit.enc.encode_polynomial_new(&wa[..la]), kit.enc.encode_polynomial_new(&wb[..la])) };
+            let decode = |pt: &RnspPlaintext| -> Vec<BigU> { unwords(&if c.batch { kit.enc.decode_new(pt) } else { kit.enc.decode_polynomial_new(pt) }) };
+            let mut out: Vec<(String, Vec<BigU>, Vec<BigU>)> = vec![];
+            // tiny rings (fewer than 9 words per polynomial) produce seedless symmetric ciphertexts: expand only when there is a seed
+            let sym = |pt: &RnspPlaintext| -> RnspCiphertext {
+                let ct = kit.encryptor.encrypt_symmetric_new(pt);
+                if ct.contains_seed() {
+                    ct.expand_seed(&kit.ctx)
+                } else {
+                    ct
+                }
+            };
+            if c.op == "roundtrip" {
+                stage.set("decode");
+                out.push(("decode(encode(a))".into(), decode(&pa), a.clone()));
+                stage.set("encrypt");
+                let ct = kit.encryptor.encrypt_new(&pa);
+                stage.set("decrypt");
+                out.push(("decrypt(encrypt(a))".into(), decode(&kit.dec.decrypt_new(&ct)), a.clone()));
+                stage.set("encrypt_symmetric");
+                let ct = sym(&pb);
+                stage.set("decrypt");
+                let mut dst = RnspPlaintext::from_raw_parts(vec![heathcliff::Plaintext::new(); k]);
+                kit.dec.decrypt(&ct, &mut dst);
+                out.push(("decrypt(encrypt_symmetric(b))".into(), decode(&dst), b.clone()));
+                return out;
+            }
+            stage.set("encrypt");
+            let ca = kit.encryptor.encrypt_new(&pa);
+            let cb = if ci % 2 == 0 { kit.encryptor.encrypt_new(&pb) } else { sym(&pb) };
+            let ev = &kit.ev;
+            stage.set("evaluate");
+            macro_rules! forms {
+                ($new:ident, $inpl:ident, $dst:ident, $rhs:expr) => {{
+                    match form {
+                        0 => ev.$new(&ca, $rhs),
+                        1 => {
+                            let mut x = ca.clone();
+                            ev.$inpl(&mut x, $rhs);
+                            x
+                        }
+                        _ => {
+                            let mut d = empty();
+                            ev.$dst(&ca, $rhs, &mut d);
+                            d
+                        }
+                    }
+                }};
+            }
+            let (res, exp): (RnspCiphertext, Vec<BigU>) = match c.op.as_str() {
+                "add" => (forms!(add_new, add_inplace, add, &cb), a.iter().zip(&b).map(|(x, y)| x.add(y).rem(&p)).collect()),
+                "sub" => (forms!(sub_new, sub_inplace, sub, &cb), a.iter().zip(&b).map(|(x, y)| submod(x, y)).collect()),
+                "multiply" => {
+                    let prod = forms!(multiply_new, multiply_inplace, multiply, &cb);
+                    let exp = ref_mul(&a, &b);
+                    stage.set("decrypt size-3");
+                    out.push(("decrypt(multiply(a,b)) before relinearization".into(), decode(&kit.dec.decrypt_new(&prod)), exp.clone()));
+                    stage.set("relinearize");
+                    let r = match form {
+                        0 => ev.relinearize_new(&prod, &kit.rk),
+                        1 => {
+                            let mut x = prod.clone();
+                            ev.relinearize_inplace(&mut x, &kit.rk);
+                            x
+                        }
+                        _ => {
+                            let mut d = empty();
+                            ev.relinearize(&prod, &kit.rk, &mut d);
+                            d
+                        }
+                    };
+                    (r, exp)
+                }
+                "square" => {
+                    let sq = match form {
+                        0 => ev.square_new(&ca),
+                        1 => {
+                            let mut x = ca.clone();
+                            ev.square_inplace(&mut x);
+                            x
+                        }
+                        _ => {
+                            let mut d = empty();
+                            ev.square(&ca, &mut d);
+                            d
+                        }
+                    };
+                    stage.set("relinearize");
+                    (ev.relinearize_new(&sq, &kit.rk), ref_mul(&a, &a))
+                }
+                "negate" => {
+                    let r = if form == 1 {
+                        let mut x = ca.clone();
+                        ev.negate_inplace(&mut x);
+                        x
+                    } else {
+                        ev.negate_new(&ca)
+                    };
+                    (r, a.iter().map(|x| submod(&BigU::zero(), x)).collect())
+                }
+                "add_plain" => (forms!(add_plain_new, add_plain_inplace, add_plain, &pb), a.iter().zip(&b).map(|(x, y)| x.add(y).rem(&p)).collect()),
+                "sub_plain" => (forms!(sub_plain_new, sub_plain_inplace, sub_plain, &pb), a.iter().zip(&b).map(|(x, y)| submod(x, y)).collect()),
+                "multiply_plain" => (forms!(multiply_plain_new, multiply_plain_inplace, multiply_plain, &pb), ref_mul(&a, &b)),
+                "mod_switch" => {
+                    let r = match form {
+                        0 => ev.mod_switch_to_next_new(&ca),
+                        1 => {
+                            let mut x = ca.clone();
+                            ev.mod_switch_to_next_inplace(&mut x);
+                            x
+                        }
+                        _ => {
+                            let mut d = empty();
+                            ev.mod_switch_to_next(&ca, &mut d);
+                            d
+                        }
+                    };
+                    (r, a.clone())
+                }
+                o => panic!("unknown rnsp op {o}"),
+            };
+            stage.set("decrypt");
+            out.push((format!("{}(a,b) form {form}", c.op), decode(&kit.dec.decrypt_new(&res)), exp));
+            out
+        });
+        match run {
+            Ok(list) => {
+                for (what, obs, exp) in list {
+                    steps += 1;
+                    if obs != exp {
+                        let hx = |v: &[BigU]| v.iter().map(|x| x.to_hex()).collect::<Vec<_>>().join(",");
+                        return CaseOut::fail(format!("{kp}:wrong"), format!("{what}: a=[{}] b=[{}] modulo P={} -> [{}]", hx(&a), hx(&b), p.to_hex(), hx(&exp)), format!("[{}]", hx(&obs)));
+                    }
+                }
+            }
+            Err(pn) => {
+                let hx = |v: &[BigU]| v.iter().map(|x| x.to_hex()).collect::<Vec<_>>().join(",");
+                // multiplication of a zero plaintext is refused by the library ("transparent" result): not a wrapper matter
+                if c.op == "multiply_plain" && pn.contains("transparent") {
+                    note(format!("rnsp: multiply_plain refusal: {}", panic_class(&pn)));
+                    continue;
+                }
+                return CaseOut::fail(format!("{kp}:{}:panic:{}", stage.get(), panic_class(&pn)), format!("no panic for a=[{}] b=[{}] P={}", hx(&a), hx(&b), p.to_hex()), pn);
+            }
+        }
+    }
+    CaseOut::pass(steps > 0, h64(&(kp.as_str(), c.t.len(), c.partner, steps)), steps)
+}
+
+
+fn range(a: usize, b: usize) -> Vec<usize> {
+    (a..=b).collect()
+}
+
+pub fn sections(cfg: &RunCfg) -> Vec<Box<dyn AnySection>> {
+    let seed = cfg.seed;
+    let thorough = cfg.thorough();
+    let mut v: Vec<Box<dyn AnySection>> = vec![];
+    let wrap = |s: Box<dyn AnySection>| -> Box<dyn AnySection> { Box::new(Observed { inner: s }) };
+
+    // ---- cheetah ----
+    {
+        let q8 = chain(8, &[50, 50, 50]);
+        let q16 = chain(16, &[50, 50, 50]);
+        let q32 = chain(32, &[50, 50, 50]);
+        let mut specs = vec![];
+        if !thorough {
+            specs.push((ParamSpec::new(Scheme::BFV, 8, q8.clone(), 1 << 20), range(1, 4)));
+            specs.push((ParamSpec::new(Scheme::BFV, 16, q16.clone(), 65537), range(1, 4)));
+            specs.push((ParamSpec::new(Scheme::BGV, 8, q8.clone(), 65537), range(1, 3)));
+        } else {
+            specs.push((ParamSpec::new(Scheme::BFV, 8, q8.clone(), 1 << 20), range(1, 17)));
+            specs.push((ParamSpec::new(Scheme::BFV, 16, q16.clone(), 65537), range(1, 12)));
+            specs.push((ParamSpec::new(Scheme::BFV, 32, q32.clone(), 1 << 20), range(1, 12)));
+            specs.push((ParamSpec::new(Scheme::BGV, 8, q8.clone(), 65537), range(1, 9)));
+            specs.push((ParamSpec::new(Scheme::BGV, 16, q16.clone(), 257), range(1, 6)));
+            // spot checks at the sizes of the repository's unit tests (not part of the exhaustive claim)
+            specs.push((ParamSpec::new(Scheme::BFV, 1024, chain(1024, &[60, 49, 60]), 1 << 20), vec![1, 17, 80]));
+            specs.push((ParamSpec::new(Scheme::BFV, 4096, chain(4096, &[60, 49, 60]), 1 << 20), vec![4, 100]));
+        }
+        let bound = specs.iter().map(|(s, d)| format!("{} (m,r,n) in [1..{}]^3", s.label(), d.last().unwrap())).collect::<Vec<_>>().join("; ");
+        let cases = cheetah_cases(&specs, 256, true);
+        v.push(wrap(
+            E1::new(
+                "cheetah",
+                &format!("{bound} (+3 zero-dimension shapes) x objective(3) x pack_lwe(2) x {{matmul, matmul_reverse, sum (CpAddPc only)}} x transport(2); fills: all unit pairs when m*r*r*n <= 256 (<= 64 with the Wire transport), dense+bias, all-(t-1)+bias; 4 encode_outputs inverses per (shape, objective[, pack])"),
+                cases.into_iter(),
+                move |c: &MCase| check_cheetah(c, seed),
+            )
+            .deadline(Duration::from_secs(60)),
+        ));
+    }
+    // ---- bolt ----
+    {
+        let q = |n: usize| chain(n, &[55, 55, 55]);
+        let mut specs = vec![];
+        if !thorough {
+            specs.push((ParamSpec::new(Scheme::BFV, 8, q(8), 17), range(1, 5), 256));
+            specs.push((ParamSpec::new(Scheme::BFV, 16, q(16), 65537), vec![1, 2, 3, 9], 36));
+            specs.push((ParamSpec::new(Scheme::BFV, 32, q(32), 193), vec![1, 3, 17], 9));
+            specs.push((ParamSpec::new(Scheme::BGV, 8, q(8), 97), vec![1, 2, 5], 16));
+        } else {
+            specs.push((ParamSpec::new(Scheme::BFV, 8, q(8), 17), range(1, 9), 256));
+            specs.push((ParamSpec::new(Scheme::BFV, 8, q(8), 65537), range(1, 5), 256));
+            specs.push((ParamSpec::new(Scheme::BFV, 16, q(16), 65537), vec![1, 2, 3, 4, 5, 6, 8, 9, 17], 81));
+            specs.push((ParamSpec::new(Scheme::BFV, 32, q(32), 193), vec![1, 2, 3, 4, 5, 16, 17, 33], 36));
+            specs.push((ParamSpec::new(Scheme::BGV, 8, q(8), 97), range(1, 6), 256));
+            specs.push((ParamSpec::new(Scheme::BGV, 16, q(16), 97), vec![1, 2, 3, 4, 9], 36));
+        }
+        let bound = specs.iter().map(|(s, d, cap)| format!("{} (m,r,n) in {:?}^3 (unit pairs when m*r*r*n <= {cap})", s.label(), d)).collect::<Vec<_>>().join("; ");
+        let cases = bolt_cases(&specs);
+        v.push(wrap(
+            E1::new(
+                "bolt",
+                &format!("{bound} x {{MatmulBoltCp, MatmulBoltCcCr, MatmulBoltCcDc}} x transport(2); fills: unit pairs, dense+bias, all-(t-1)+bias; 3 encode/decode_outputs inverses per case"),
+                cases.into_iter(),
+                move |c: &BCase| check_bolt(c, seed),
+            )
+            .deadline(Duration::from_secs(120)),
+        ));
+    }
+    // ---- conv2d ----
+    {
+        let q = |n: usize| chain(n, &[50, 50, 50]);
+        let mut specs = vec![];
+        if !thorough {
+            let box6 = conv_shapes(2, 2, 6, 6, 3);
+            specs.push((ParamSpec::new(Scheme::BFV, 8, q(8), 1 << 20), box6.clone(), 128, 24));
+            specs.push((ParamSpec::new(Scheme::BFV, 16, q(16), 65537), box6.clone(), 32, 16));
+            specs.push((ParamSpec::new(Scheme::BFV, 32, q(32), 1 << 20), box6, 0, 0));
+            specs.push((ParamSpec::new(Scheme::BGV, 8, q(8), 65537), conv_shapes(2, 2, 4, 4, 2), 16, 0));
+        } else {
+            let box12 = conv_shapes(2, 2, 12, 12, 3);
+            specs.push((ParamSpec::new(Scheme::BFV, 8, q(8), 1 << 20), conv_shapes(2, 2, 8, 8, 3), 256, 48));
+            specs.push((ParamSpec::new(Scheme::BFV, 16, q(16), 65537), box12.clone(), 256, 48));
+            specs.push((ParamSpec::new(Scheme::BFV, 32, q(32), 1 << 20), box12.clone(), 128, 32));
+            specs.push((ParamSpec::new(Scheme::BFV, 64, chain(64, &[50, 50, 50]), 65537), box12, 64, 0));
+            specs.push((ParamSpec::new(Scheme::BGV, 8, q(8), 65537), conv_shapes(2, 2, 6, 6, 3), 128, 24));
+            specs.push((ParamSpec::new(Scheme::BGV, 16, q(16), 65537), conv_shapes(2, 2, 6, 6, 3), 64, 16));
+            // spot checks at the sizes of the repository's unit tests (not part of the exhaustive claim)
+            let big = vec![ConvShape { b: 1, ci: 3, co: 5, h: 16, w: 17, kh: 3, kw: 5 }, ConvShape { b: 4, ci: 3, co: 16, h: 32, w: 32, kh: 5, kw: 5 }, ConvShape { b: 1, ci: 1, co: 1, h: 40, w: 2, kh: 2, kw: 2 }];
+            specs.push((ParamSpec::new(Scheme::BFV, 64, chain(64, &[50, 50, 50]), 1 << 20), big.clone(), 0, 0));
+            specs.push((ParamSpec::new(Scheme::BFV, 4096, chain(4096, &[60, 49, 60]), 1 << 20), big, 0, 0));
+        }
+        let bound = specs
+            .iter()
+            .map(|(s, sh, pc, sc)| {
+                let l = sh.iter().fold((0, 0, 0, 0, 0), |a, s| (a.0.max(s.b), a.1.max(s.ci), a.2.max(s.h), a.3.max(s.w), a.4.max(s.kh)));
+                format!("{} batch<={} c_in,c_out<={} H<={} W<={} k<=min(image,{}) ({} shapes; unit pairs when |x|*|w| <= {pc}, one-sided units when |x|+|w| <= {sc})", s.label(), l.0, l.1, l.2, l.3, l.4, sh.len())
+            })
+            .collect::<Vec<_>>()
+            .join("; ");
+        let cases = conv_cases(&specs);
+        v.push(wrap(
+            E1::new(
+                "conv2d",
+                &format!("{bound} x objective(3) x {{conv2d, conv2d_reverse}} x transport(2); fills (unit fills with the Direct transport only): unit pairs / one-sided units, dense+bias, all-(t-1)+bias; 4 encode_outputs inverses per (shape, objective[, pack])"),
+                cases.into_iter(),
+                move |c: &VCase| check_conv(c, seed),
+            )
+            .deadline(Duration::from_secs(60)),
+        ));
+    }
+    // ---- ckks ----
+    {
+        let q = |n: usize| chain(n, &[60, 40, 60]);
+        let mut specs = vec![];
+        if !thorough {
+            specs.push((ParamSpec::new(Scheme::CKKS, 8, q(8), 0), 40u32, 3usize, conv_shapes(2, 2, 6, 3, 3)));
+            specs.push((ParamSpec::new(Scheme::CKKS, 16, q(16), 0), 40, 3, conv_shapes(1, 2, 5, 5, 2)));
+        } else {
+            specs.push((ParamSpec::new(Scheme::CKKS, 8, q(8), 0), 40u32, 6usize, conv_shapes(2, 2, 6, 6, 3)));
+            specs.push((ParamSpec::new(Scheme::CKKS, 16, q(16), 0), 40, 5, conv_shapes(2, 2, 6, 6, 3)));
+            specs.push((ParamSpec::new(Scheme::CKKS, 32, q(32), 0), 40, 4, conv_shapes(2, 2, 8, 8, 3)));
+        }
+        let bound = specs.iter().map(|(s, ls, b, cv)| format!("{} scale 2^{ls}: matmul (m,r,n) in [1..{b}]^3 x pack(2), {} conv shapes", s.label(), cv.len())).collect::<Vec<_>>().join("; ");
+        let cases = ckks_cases(&specs);
+        v.push(wrap(
+            E1::new(
+                "ckks",
+                &format!("{bound} x objective(3) x direction(2) x transport(2); pipeline of the unit tests (multiply, pack, rescale, bias, transport); fills dense / +-4 / first unit; error within the a-priori bound"),
+                cases.into_iter(),
+                move |c: &KCase| check_ckks(c, seed),
+            )
+            .deadline(Duration::from_secs(60)),
+        ));
+    }
+    // ---- rnsp ----
+    {
+        // (scheme, N, plain moduli, batch encoding, every residue?)
+        let mut sets: Vec<(Scheme, usize, Vec<u64>, bool, bool)> = vec![];
+        let b30 = |n: usize, c: usize| primes_1_mod(2 * n as u64, 30, c);
+        let b36 = |n: usize, c: usize| primes_1_mod(2 * n as u64, 36, c);
+        sets.push((Scheme::BFV, 2, vec![5, 13], true, true));
+        sets.push((Scheme::BGV, 2, vec![5, 13], true, true));
+        sets.push((Scheme::BFV, 4, vec![17, 41], true, true));
+        sets.push((Scheme::BFV, 2, vec![5, 13, 17], true, true));
+        sets.push((Scheme::BFV, 4, vec![3, 5, 7], false, true));
+        sets.push((Scheme::BFV, 4, vec![16, 9, 25], false, true));
+        sets.push((Scheme::BFV, 8, b30(8, 3), true, false));
+        sets.push((Scheme::BGV, 8, b30(8, 2), true, false));
+        sets.push((Scheme::BFV, 8, b36(8, 2), true, false));
+        sets.push((Scheme::BFV, 8, vec![1 << 20, 1_000_003, 999_999_937], false, false));
+        if thorough {
+            sets.push((Scheme::BGV, 4, vec![17, 41], true, true));
+            sets.push((Scheme::BFV, 8, vec![17, 97], true, true));
+            sets.push((Scheme::BGV, 2, vec![5, 13, 17], true, true));
+            sets.push((Scheme::BFV, 4, vec![17, 41, 73], true, true));
+            sets.push((Scheme::BGV, 4, vec![7, 11, 13], false, true));
+            sets.push((Scheme::BGV, 8, b30(8, 3), true, false));
+            sets.push((Scheme::BFV, 16, b30(16, 3), true, false));
+        }
+        let mut cases = vec![];
+        let mut bound = vec![];
+        for (scheme, n, t, batch, all) in sets {
+            let p: u128 = if all { t.iter().map(|&x| x as u128).product() } else { 0 };
+            let partners: Vec<u8> = if !all || p <= 128 { vec![0] } else if p > 5000 { vec![1, 3] } else { vec![1, 2, 3, 4, 5] };
+            bound.push(format!("{scheme:?}/N{n}/t{t:?}/{}/{}", if batch { "batch" } else { "poly" }, if !all { "boundary set, all pairs".to_string() } else if p <= 128 { format!("all {p}^2 pairs") } else { format!("all {p} values x {} partner maps", partners.len()) }));
+            for op in R_OPS {
+                for &partner in &partners {
+                    let mut c = RCase { scheme, n, q: chain(n, &[50, 50, 50]), t: t.clone(), batch, op: op.to_string(), partner, all, part: 0, parts: 1 };
+                    let nv = rnsp_values(&c, &BigU::product(&t)).len();
+                    let chunks = (if partner == 0 { nv * nv } else { nv } + n - 1) / n;
+                    c.parts = (chunks + 63) / 64;
+                    for part in 0..c.parts {
+                        cases.push(RCase { part, ..c.clone() });
+                    }
+                }
+            }
+        }
+        v.push(wrap(
+            E1::new(
+                "rnsp",
+                &format!("{} x ops {:?} (new / inplace / destination forms in rotation, pk and symmetric encryption)", bound.join("; "), R_OPS),
+                cases.into_iter(),
+                move |c: &RCase| check_rnsp(c, seed),
+            )
+            .deadline(Duration::from_secs(120)),
+        ));
+    }
+    v
 }
